@@ -115,6 +115,27 @@ def run(ctx):
             if prev is not None and rr > prev: viol('C11:rank:explicit-tol:monotone', 'rank increases when the threshold grows', inp, rr, prev)
             prev = rr
             ctx.count(('rank-tol', m, n, str(sv), str(t)), True)
+    # the relative threshold handed to the null-space routines is the one in force on BOTH sides and through every wrapper: the basis has
+    # dim - #{s_i > rtol * s_0} columns, each mapped to (at most) the threshold level
+    for (m, n) in ((6, 4), (4, 6), (5, 5)) if ctx.quick() else ((6, 4), (4, 6), (5, 5), (7, 4), (4, 4)):
+        r = min(m, n); sv = [Fraction(1), Fraction(3, 10), Fraction(1, 10 ** 4), Fraction(1, 10 ** 12)][:r]
+        A, _, _ = spectral_problem(rng, m, n, sv); An = qx.to_np(A)
+        _, s, _ = qsvd.classical_qsvd_full(An)
+        for rt in (None, 1e-14, 1e-6, 1e-2):
+            kw = {} if rt is None else {'rtol': rt}; thr = (1e-10 if rt is None else rt) * float(s[0]); rk = int(sum(1 for v in s if v > thr))
+            entry = [('quat_null_space(right)', lambda: utils.quat_null_space(An, side='right', **kw), n, False), ('quat_null_space(left)', lambda: utils.quat_null_space(An, side='left', **kw), m, True),
+                     ('quat_null_right', lambda: utils.quat_null_right(An, **kw), n, False), ('quat_null_left', lambda: utils.quat_null_left(An, **kw), m, True),
+                     ('quat_kernel(right)', lambda: utils.quat_kernel(An, side='right', **kw), n, False), ('quat_kernel(left)', lambda: utils.quat_kernel(An, side='left', **kw), m, True)]
+            for nm, f, dim, left in entry:
+                inp = {'shape': [m, n], 'singular_values': [str(x) for x in sv], 'rtol': rt, 'entry point': nm}
+                try: Nb = f()
+                except TypeError: continue                                   # wrapper without an rtol parameter
+                except Exception as e: viol('C11:null:rtol:raises', f'{nm} raised {e!r}', inp); continue
+                if Nb.shape != (dim, dim - rk): viol(f'C11:null:rtol:{"left" if left else "right"}', f'{nm} with rtol = {rt} returns a basis of shape {Nb.shape}, expected ({dim}, {dim - rk}) (rank {rk} at the threshold in force)', inp, Nb.shape, (dim, dim - rk)); continue
+                if Nb.shape[1]:
+                    resid = float(utils.quat_frobenius_norm(utils.quat_matmat(utils.quat_hermitian(An) if left else An, Nb)))
+                    if resid > 4 * thr * max(1, Nb.shape[1]) + 1e-12: viol(f'C11:null:rtol:residual:{"left" if left else "right"}', f'{nm}: a basis column is not mapped below the threshold ({resid:.2e} > {thr:.2e})', inp, resid, thr)
+                ctx.count(('null-rtol', m, n, str(rt), nm), True)
     # determinants
     for n in range(1, (4 if ctx.quick() else 6)):
         for rep in range(3):
